@@ -99,3 +99,36 @@ def cover_paths(dot, out_path, project, prios, max_len=400, limit=None, rnd=None
             steps += len(row)
             f.write(json.dumps(row) + "\n")
     return dict(nodes=len(nodes), edges=len(edges), paths_total=total, paths=len(paths), steps=steps)
+
+
+# ------------------------------------------------------------------------------------------------ v1
+def tla_bool(b):
+    return "TRUE" if b else "FALSE"
+
+
+def write_mc_v1(sc, cfg, rows, invariants=(), properties=(), spec="Spec"):
+    name = "MC_" + cfg["name"]
+    uni = cfg["prios"]
+    chans = list(range(1, cfg["nc"] + 1))
+    tbl = " @@\n  ".join("<<%s, %d>> :> %s" % (tla_seq(r["ps"]), r["d"], tla_seq(r["inc"])) for r in rows)
+    with open(os.path.join(sc, name + ".tla"), "w") as f:
+        f.write("---- MODULE %s ----\nEXTENDS PrioV1\n" % name)
+        f.write("c_Universe == {%s}\n" % ", ".join(map(str, uni)))
+        f.write("c_DivTbl ==\n  %s\n" % tbl)
+        f.write("c_InitChan == %s\n" % tla_fn(uni, lambda p: cfg["initchan"][str(p)]))
+        f.write("c_InCap == %s\n" % tla_fn(chans, lambda c: cfg["incap"][str(c)]))
+        f.write("c_Items == %s\n" % tla_fn(chans, lambda c: cfg["items"][str(c)]))
+        f.write("c_Adds == {%s}\n" % ", ".join("<<%d, %d>>" % (a[0], a[1]) for a in cfg.get("adds", [])))
+        f.write("c_Rmvs == {%s}\n" % ", ".join(map(str, cfg.get("rmvs", []))))
+        f.write("====\n")
+    with open(os.path.join(sc, name + ".cfg"), "w") as f:
+        f.write("SPECIFICATION %s\nCONSTANTS\n  Universe <- c_Universe\n  DivTbl <- c_DivTbl\n  InitChan <- c_InitChan\n  InCap <- c_InCap\n  Items <- c_Items\n  Adds <- c_Adds\n  Rmvs <- c_Rmvs\n" % spec)
+        f.write("  NC = %d\n  H = %d\n  OutCap = %d\n  FbCap = %d\n  FbLimit = %d\n" % (cfg["nc"], cfg["H"], cfg["outcap"], cfg["fbcap"], max(cfg["H"] // 10, 1)))
+        f.write("  AllowStop = %s\n  AllowCancel = %s\n  AllowGraceful = %s\n  FaultBudget = %d\n  F3Fixed = %s\n" % (
+            tla_bool(cfg.get("stop")), tla_bool(cfg.get("cancel")), tla_bool(cfg.get("graceful")), cfg.get("faults", 0), tla_bool(cfg.get("f3fixed", True))))
+        if invariants:
+            f.write("INVARIANTS " + " ".join(invariants) + "\n")
+        if properties:
+            f.write("PROPERTIES " + " ".join(properties) + "\n")
+        f.write("CHECK_DEADLOCK FALSE\n")
+    return name
